@@ -13,9 +13,28 @@ import (
 
 // CLI binding: for the clean first base and the first instance of every planted rule on it, the
 // workspace is written to a scratch directory and linted with the in-process CLI
-// (`buf lint <dir> --error-format=json --config <buf.yaml text>`); the annotations must be the same set
-// as the ones returned by Client.Lint for the same image and configuration. This ties the API-level
+// (`buf lint <input> --error-format=json`); the annotations must be the same set as the ones returned by
+// Client.Lint for the same image and configuration (and the exit code 100 / 0). This ties the API-level
 // observations of this check to the second observation point of the property.
+//
+// Which configuration is in effect for a `buf lint` run depends on more than the buf.yaml text, so the
+// binding is a grid (round 4):
+//
+//	input     "dir": the workspace directory; "image": the file written by `buf build <dir> -o image.binpb`
+//	          (a two-step history: the schema is built first and linted later)
+//	delivery  how the configuration gets to the command: "flag-data" (--config <yaml text>), "flag-file"
+//	          (--config <path of a yaml file>), "dir-buf-yaml" (a buf.yaml in the linted directory; dir
+//	          input only - for an image input buf reads ./buf.yaml of the process' working directory, which an
+//	          in-process run cannot set per case)
+//	config    v2 all rules (the cell of the earlier rounds), and in every version a buf.yaml without `use`
+//	          key - no `lint:` key at all unless the case has rule options - under which the default rules of
+//	          *that version* run (Rule.Default of Client.AllRules), and v1 all rules
+//
+// The full grid is run for the clean workspace and for every planted rule that is a default rule in some
+// but not all versions (only those can tell one version's default configuration from another's); the other
+// planted rules get the old cell, and the image input with all rules in v2 and the v1 default rules (the v2
+// default rules include PROTOVALIDATE, 100x the cost of the others).
+// Module-level lint blocks are not used here: for an image input there is no module to attach them to.
 
 type cliAnnotation struct {
 	Path        string `json:"path"`
@@ -31,77 +50,209 @@ func annKey(path string, sl, sc, el, ec int, typ, msg string) string {
 	return fmt.Sprintf("%s:%d:%d-%d:%d %s %s", path, sl, sc, el, ec, typ, msg)
 }
 
-// runCLI compares CLI and API annotations for one rendered workspace under cfg. label is "clean" or the operator.
-func (rn *runner) runCLI(scratch string, n int, info CaseInfo, rd *Rendered, cfg *Config, label string) {
-	dir := filepath.Join(scratch, fmt.Sprintf("ws%d", n))
-	for path, text := range rd.Files {
+const (
+	cliInputDir   = "dir"
+	cliInputImage = "image"
+
+	cliFlagData   = "flag-data"
+	cliFlagFile   = "flag-file"
+	cliDirBufYAML = "dir-buf-yaml"
+)
+
+// cliCell is one cell of the grid.
+type cliCell struct {
+	input, delivery string
+	version, use    string
+}
+
+func (c cliCell) String() string { return c.input + "/" + c.delivery + "/" + c.version + "/" + c.use }
+
+// cliConfigs are the (version, use) pairs of the grid.
+var cliConfigs = [][2]string{{"v2", "ALL"}, {"v2", noUse}, {"v1", noUse}, {"v1beta1", noUse}, {"v1", "ALL"}}
+
+func cliCells(full bool) []cliCell {
+	if !full {
+		return []cliCell{
+			{cliInputDir, cliFlagData, "v2", "ALL"},
+			{cliInputImage, cliFlagData, "v2", "ALL"},
+			{cliInputImage, cliFlagData, "v1", noUse},
+		}
+	}
+	var out []cliCell
+	for _, in := range [][2]string{{cliInputDir, cliFlagData}, {cliInputDir, cliFlagFile}, {cliInputDir, cliDirBufYAML}, {cliInputImage, cliFlagData}, {cliInputImage, cliFlagFile}} {
+		for _, c := range cliConfigs {
+			out = append(out, cliCell{in[0], in[1], c[0], c[1]})
+		}
+	}
+	return out
+}
+
+func writeTree(dir string, files map[string]string) error {
+	for path, text := range files {
 		full := filepath.Join(dir, filepath.FromSlash(path))
 		if err := os.MkdirAll(filepath.Dir(full), 0o755); err != nil {
-			rn.r.Incomplete("scratch: " + err.Error())
-			return
+			return err
 		}
 		if err := os.WriteFile(full, []byte(text), 0o644); err != nil {
-			rn.r.Incomplete("scratch: " + err.Error())
-			return
+			return err
 		}
+	}
+	return nil
+}
+
+// runCLI compares CLI and API annotations for one rendered workspace in every cell. label is "clean" or
+// the operator; sensitive: the planted rule is not a default rule of every version.
+func (rn *runner) runCLI(scratch string, n int, info CaseInfo, rd *Rendered, expects []Expect, opts LintOpts, cells []cliCell, label string, sensitive bool) {
+	ws := filepath.Join(scratch, fmt.Sprintf("ws%d", n))
+	src := filepath.Join(ws, "src")
+	if err := writeTree(src, rd.Files); err != nil {
+		rn.r.Incomplete("scratch: " + err.Error())
+		return
 	}
 	image, err := buildImage(rn.ctx, rd)
 	if err != nil {
 		rn.r.Incomplete("cli case does not build: " + oneLine(err.Error()))
 		return
 	}
-	api, err := bufx.Lint(rn.ctx, cfg.lint, image)
-	if err != nil {
-		rn.r.Incomplete("cli case: lint error: " + oneLine(err.Error()))
+	// the first step of the two-step history
+	imagePath := filepath.Join(ws, "image.binpb")
+	built := bufx.RunCLI(rn.ctx, nil, "", "build", src, "-o", imagePath)
+	if built.ExitCode != 0 {
+		rn.r.Incomplete(fmt.Sprintf("cli case: `buf build -o` failed for %s (exit %d): %s", label, built.ExitCode, oneLine(built.Stderr)))
 		return
 	}
-	res := bufx.RunCLI(rn.ctx, nil, "", "lint", dir, "--error-format=json", "--config", cfg.yaml)
-	rn.r.Eval(1)
-	var want, got []string
-	for _, a := range api {
-		want = append(want, annKey(a.Path, a.StartLine, a.StartCol, a.EndLine, a.EndCol, a.Type, a.Message))
-	}
-	for _, line := range strings.Split(strings.TrimSpace(res.Stdout), "\n") {
-		if line == "" {
+	for ci, cell := range cells {
+		var table *RuleTable
+		for _, t := range rn.tables {
+			if t.Version == cell.version {
+				table = t
+			}
+		}
+		cfg, err := newConfig(table, cell.use, opts)
+		if err != nil {
+			rn.r.Incomplete(err.Error())
 			continue
 		}
-		var ca cliAnnotation
-		if err := json.Unmarshal([]byte(line), &ca); err != nil {
-			rn.r.Incomplete(fmt.Sprintf("cli output is not JSON lines: %q (stderr %q)", oneLine(line), oneLine(res.Stderr)))
-			return
+		api, err := bufx.Lint(rn.ctx, cfg.lint, image)
+		if err != nil {
+			rn.r.Incomplete("cli case: lint error: " + oneLine(err.Error()))
+			continue
 		}
-		p := filepath.ToSlash(ca.Path)
-		p = strings.TrimPrefix(p, filepath.ToSlash(dir)+"/")
-		got = append(got, annKey(p, ca.StartLine, ca.StartColumn, ca.EndLine, ca.EndColumn, ca.Type, ca.Message))
+		input, prefix := src, filepath.ToSlash(src)+"/"
+		if cell.input == cliInputImage {
+			input, prefix = imagePath, ""
+		}
+		args := []string{"lint", input, "--error-format=json"}
+		switch cell.delivery {
+		case cliFlagData:
+			args = append(args, "--config", cfg.yaml)
+		case cliFlagFile:
+			path := filepath.Join(ws, fmt.Sprintf("config%d.yaml", ci))
+			if err := os.WriteFile(path, []byte(cfg.yaml), 0o644); err != nil {
+				rn.r.Incomplete("scratch: " + err.Error())
+				continue
+			}
+			args = append(args, "--config", path)
+		case cliDirBufYAML:
+			// a copy of the workspace with the buf.yaml inside
+			input = filepath.Join(ws, fmt.Sprintf("src%d", ci))
+			prefix = filepath.ToSlash(input) + "/"
+			if err := writeTree(input, rd.Files); err == nil {
+				err = os.WriteFile(filepath.Join(input, "buf.yaml"), []byte(cfg.yaml), 0o644)
+			}
+			if err != nil {
+				rn.r.Incomplete("scratch: " + err.Error())
+				continue
+			}
+			args[1] = input
+		}
+		res := bufx.RunCLI(rn.ctx, nil, "", args...)
+		rn.r.Eval(1)
+		var want, got []string
+		for _, a := range api {
+			want = append(want, annKey(a.Path, a.StartLine, a.StartCol, a.EndLine, a.EndCol, a.Type, a.Message))
+		}
+		bad := false
+		for _, line := range strings.Split(strings.TrimSpace(res.Stdout), "\n") {
+			if line == "" {
+				continue
+			}
+			var ca cliAnnotation
+			if err := json.Unmarshal([]byte(line), &ca); err != nil {
+				rn.r.Incomplete(fmt.Sprintf("cli output is not JSON lines (%s): %q (stderr %q)", cell, oneLine(line), oneLine(res.Stderr)))
+				bad = true
+				break
+			}
+			p := strings.TrimPrefix(filepath.ToSlash(ca.Path), prefix)
+			got = append(got, annKey(p, ca.StartLine, ca.StartColumn, ca.EndLine, ca.EndColumn, ca.Type, ca.Message))
+		}
+		if bad {
+			continue
+		}
+		sort.Strings(want)
+		sort.Strings(got)
+		wantExit := 0
+		if len(api) > 0 {
+			wantExit = 100
+		}
+		vi := info
+		vi.Config = cfg.String()
+		vi.Entry = "cli:" + cell.input + "/" + cell.delivery
+		vi.Opts = cfg.Opts
+		vi.Files = rd.Files
+		vi.Got = api
+		// the cell of the earlier rounds keeps its signatures
+		sigCell := ""
+		if cell != (cliCell{cliInputDir, cliFlagData, "v2", "ALL"}) {
+			sigCell = cell.input + "-input/" + cfg.String() + "/"
+		}
+		if strings.Join(want, "\n") != strings.Join(got, "\n") {
+			vi.Note = "cli stdout: " + res.Stdout + " stderr: " + res.Stderr
+			rn.r.Violate("cli-differs-from-api/"+sigCell+label, fmt.Sprintf("`buf lint %s --error-format=json` (configuration %s by %s) and Client.Lint disagree: api=%v cli=%v", cell.input, cfg, cell.delivery, want, got), vi)
+		} else if res.ExitCode != wantExit {
+			vi.Note = "stderr: " + res.Stderr
+			rn.r.Violate("cli-exit-code/"+sigCell+label, fmt.Sprintf("buf lint exit code %d, want %d for %d annotations (%s)", res.ExitCode, wantExit, len(api), cell), vi)
+		}
+		// the API side of the comparison is held against the expectations like any other evaluation
+		for _, p := range judgeOnly(rd, expects, cfg, api, label) {
+			rn.r.Violate(p.sig, p.what, vi)
+		}
+		rn.st.mu.Lock()
+		rn.st.cliCases++
+		if len(api) > 0 {
+			rn.st.cliWithAnnotations++
+		}
+		rn.st.cliCells[cell.String()]++
+		if sensitive {
+			rn.st.cliDefaultSensitive[cell.input+"/"+cfg.String()]++
+		}
+		rn.st.mu.Unlock()
 	}
-	sort.Strings(want)
-	sort.Strings(got)
-	wantExit := 0
-	if len(api) > 0 {
-		wantExit = 100
+}
+
+func judgeOnly(rd *Rendered, expects []Expect, cfg *Config, anns []bufx.Annotation, label string) []problem {
+	problems, _ := judge(rd, expects, cfg, anns, label)
+	return problems
+}
+
+// defaultSensitive: the rule runs by default in some but not all config versions.
+func (rn *runner) defaultSensitive(rule string) bool {
+	n := 0
+	for _, t := range rn.tables {
+		for _, id := range t.Defaults {
+			if id == rule {
+				n++
+			}
+		}
 	}
-	ci := info
-	ci.Config = cfg.String()
-	ci.Opts = cfg.Opts
-	ci.Files = rd.Files
-	ci.Got = api
-	if strings.Join(want, "\n") != strings.Join(got, "\n") {
-		ci.Note = "cli stdout: " + res.Stdout + " stderr: " + res.Stderr
-		rn.r.Violate("cli-differs-from-api/"+label, fmt.Sprintf("`buf lint --error-format=json` and Client.Lint disagree: api=%v cli=%v", want, got), ci)
-	} else if res.ExitCode != wantExit {
-		ci.Note = "stderr: " + res.Stderr
-		rn.r.Violate("cli-exit-code/"+label, fmt.Sprintf("buf lint exit code %d, want %d for %d annotations", res.ExitCode, wantExit, len(api)), ci)
-	}
-	rn.st.mu.Lock()
-	rn.st.cliCases++
-	if len(api) > 0 {
-		rn.st.cliWithAnnotations++
-	}
-	rn.st.mu.Unlock()
+	return n != 0 && n != len(rn.tables)
 }
 
 // cliPart runs the CLI binding on the first plant base.
-func (rn *runner) cliPart(base Params, plants []Plant) {
+//
+// optionBase is a second clean workspace, one that is clean only under rule options (custom suffixes, Empty
+// allowances): its buf.yaml without use key has a lint block that consists of options only.
+func (rn *runner) cliPart(base Params, plants []Plant, optionBase Params) {
 	scratch, err := os.MkdirTemp("", "verif-c05-")
 	if err != nil {
 		rn.r.Incomplete("scratch: " + err.Error())
@@ -117,8 +268,9 @@ func (rn *runner) cliPart(base Params, plants []Plant) {
 	type item struct {
 		pl    *Plant
 		label string
+		base  Params
 	}
-	items := []item{{nil, "clean"}}
+	items := []item{{nil, "clean", base}, {nil, "clean", optionBase}}
 	seen := map[string]bool{}
 	for i := range plants {
 		pl := &plants[i]
@@ -129,25 +281,33 @@ func (rn *runner) cliPart(base Params, plants []Plant) {
 			continue
 		}
 		seen[pl.Rule] = true
-		items = append(items, item{pl, pl.Op})
+		items = append(items, item{pl, pl.Op, base})
 	}
-	rn.r.ParallelFor(len(items), 4, func(i int) {
+	nSensitive := 0
+	for _, it := range items {
+		if it.pl != nil && rn.defaultSensitive(it.pl.Rule) {
+			nSensitive++
+		}
+	}
+	rn.r.Set("cli_default_sensitive_rules", nSensitive)
+	if nSensitive == 0 {
+		rn.r.Incomplete("the CLI binding has no planted rule that tells the default rules of one config version from another's")
+	}
+	rn.r.ParallelFor(len(items), 8, func(i int) {
 		it := items[i]
-		spec := Build(base)
-		opts := base.Opts()
-		info := CaseInfo{Base: base.Key()}
+		spec := Build(it.base)
+		opts := it.base.Opts()
+		info := CaseInfo{Base: it.base.Key()}
+		var expects []Expect
+		sensitive := false
 		if it.pl != nil {
-			it.pl.Apply(spec)
+			expects = it.pl.Apply(spec)
 			if it.pl.Opts != nil {
 				opts = *it.pl.Opts
 			}
 			info.Op, info.Rule, info.Site = it.pl.Op, it.pl.Rule, it.pl.Site
+			sensitive = rn.defaultSensitive(it.pl.Rule)
 		}
-		cfg, err := newConfig(v2, "ALL", opts)
-		if err != nil {
-			rn.r.Incomplete(err.Error())
-			return
-		}
-		rn.runCLI(scratch, i, info, spec.Render(), cfg, it.label)
+		rn.runCLI(scratch, i, info, spec.Render(), expects, opts, cliCells(it.pl == nil || sensitive), it.label, sensitive)
 	})
 }
